@@ -2,6 +2,7 @@
 runs the REAL `pydoctor.driver.main` on each, in-process, with and without --warnings-as-errors.
 
 stdin : JSON list of {"sources": [src0, src1, ...], "fmt": docformat, "target": full name, "quiet": bool}
+        or {"projects": [{relpath: source, ...}, ...], "fmt", "quiet"}  (a package `pkg/...`; paths are printed as @ROOT@/pkg/...)
 stdout: JSON list (same order) of lists (one per source) of observations
    {"status": int, "statusW": int,                       exit status without / with --warnings-as-errors
     "stdout": [...], "stdoutW": [...],                   stdout lines; the module's path replaced by "@MOD@"
@@ -16,7 +17,7 @@ import contextlib, io, json, os, shutil, sys, tempfile
 from pydoctor import driver, model
 
 
-def run_once(path, outdir, fmt, quiet, wae):
+def run_once(path, outdir, fmt, quiet, wae, strip='\0'):
     holder = {}
     reports = []
     real_gs = driver.get_system
@@ -34,7 +35,10 @@ def run_once(path, outdir, fmt, quiet, wae):
         return r
 
     def report(self, descr, section='parsing', lineno_offset=0, thresh=-1):
-        reports.append([self.fullName(), section, lineno_offset, descr, thresh])
+        sp = self.source_path
+        reports.append([self.fullName(), section, lineno_offset, descr, thresh,
+                        None if sp is None else str(sp).replace(strip, '@ROOT@'), int(self.docstring_lineno or 0),
+                        int(self.linenumber or 0), self.module is self, self.module.fullName()])
         return real_report(self, descr, section=section, lineno_offset=lineno_offset, thresh=thresh)
 
     driver.get_system, driver.make, model.Documentable.report = gs, mk, report
@@ -55,7 +59,7 @@ def run_once(path, outdir, fmt, quiet, wae):
                 code = 'exception:%s:%s' % (type(e).__name__, str(e)[:200])
     finally:
         driver.get_system, driver.make, model.Documentable.report = real_gs, real_make, real_report
-    lines = [l.replace(path, '@MOD@') for l in buf.getvalue().split('\n')]
+    lines = [(l.replace(strip, '@ROOT@') if strip != '\0' else l.replace(path, '@MOD@')) for l in buf.getvalue().split('\n')]
     if lines and lines[-1] == '':
         lines.pop()
     return code, lines, holder, reports
@@ -87,6 +91,32 @@ def run_source(root, idx, src, fmt, target, quiet):
     return obs
 
 
+def run_project(root, idx, files, fmt, quiet):
+    """files: {relative path: source}; the single top-level package/module directory `pkg` is the source path."""
+    d = os.path.join(root, 'p%d' % idx)
+    for rel, src in files.items():
+        fp = os.path.join(d, rel)
+        os.makedirs(os.path.dirname(fp), exist_ok=True)
+        with open(fp, 'w', encoding='utf-8', newline='') as f:
+            f.write(src)
+    path = os.path.join(d, 'pkg')
+    cwd = os.getcwd()
+    os.chdir(d)
+    try:
+        code, lines, holder, reports = run_once(path, os.path.join(d, 'out'), fmt, quiet, False, strip=d)
+        codeW, linesW, holderW, _ = run_once(path, os.path.join(d, 'outW'), fmt, quiet, True, strip=d)
+    finally:
+        os.chdir(cwd)
+    obs = {'status': code, 'statusW': codeW, 'stdout': lines, 'stdoutW': linesW, 'reports': reports}
+    s = holder.get('s')
+    obs['violations'] = holder.get('violations_after_make')
+    obs['final_violations'] = s.violations if s is not None else None
+    if s is not None:
+        obs['parse_error_sections'] = {k: sorted(v) for k, v in s.parse_errors.items() if v}
+    shutil.rmtree(d, ignore_errors=True)
+    return obs
+
+
 if __name__ == '__main__':
     cases = json.load(sys.stdin)
     root = tempfile.mkdtemp(prefix='verif_c16_')
@@ -95,7 +125,10 @@ if __name__ == '__main__':
         n = 0
         for c in cases:
             res = []
-            for src in c['sources']:
+            for files in c.get('projects', []):
+                n += 1
+                res.append(run_project(root, n, files, c['fmt'], c.get('quiet', True)))
+            for src in c.get('sources', []):
                 n += 1
                 res.append(run_source(root, n, src, c['fmt'], c['target'], c.get('quiet', True)))
             out.append(res)
